@@ -43,6 +43,10 @@ func (self ValueObject) IsEqual(other Value) (bool, *Interrupt) {
 		if !found {
 			return false, nil
 		}
+		// a field of type `any` holds values of any kind: values of different kinds are simply not equal
+		if (*value).Kind() != (*otherValue).Kind() {
+			return false, nil
+		}
 		isEqual, i := (*value).IsEqual(*otherValue)
 		if i != nil {
 			return false, i
